@@ -820,6 +820,29 @@ mod tests {
     }
 
     #[test]
+    fn test_descriptions_stay_inside_comments() {
+        let schema = json!({
+            "title": "Config",
+            "description": "first\rsecond\n@see other",
+            "type": "object",
+            "properties": {},
+            "$defs": {
+                "Level": {
+                    "oneOf": [
+                        { "const": "info", "description": "line one\nline two" }
+                    ]
+                }
+            }
+        });
+
+        let output = converter().convert(&schema).annotation_text;
+        assert!(
+            output.contains("--- first\n--- second\n--- \\@see other\n---@class schema.Config")
+        );
+        assert!(output.contains("---| \"info\" # line one line two\n"));
+    }
+
+    #[test]
     fn test_description_above_field() {
         let schema = json!({
             "title": "Config",
